@@ -149,9 +149,9 @@ func c10Specs(tier string) []*seq.Spec {
 	probes := [][]byte{{0x01}, {0x02}, {0x03}, {0x04}}
 	bounds := [][]byte{nil, {}, {0x01}, {0x02}, {0x03}, {0x04}, {0x05}}
 	cfg := &msCfg{nStores: 1, keys: keys[:2], vals: [][]byte{[]byte("a")}, bounds: bounds, maxCommits: 3, cache: true, reopenOp: true, viewKinds: []string{"lazy"}, maxViews: 1, final: c10Final}
-	depth := 6
+	depth := 8
 	if tier == "thorough" {
-		cfg = &msCfg{nStores: 2, keys: keys, vals: [][]byte{[]byte("a"), []byte("b")}, bounds: bounds, maxCommits: 4, cache: true, reopenOp: true, viewKinds: []string{"lazy"}, maxViews: 2, final: c10Final}
+		cfg = &msCfg{nStores: 1, keys: keys, vals: [][]byte{[]byte("a"), []byte("b")}, bounds: bounds, maxCommits: 4, cache: true, reopenOp: true, viewKinds: []string{"lazy"}, maxViews: 2, final: c10Final}
 		depth = 7
 	}
 	_ = probes
